@@ -4,6 +4,7 @@ import Verif.Model.HtmlAttr
 import Verif.Spec.HtmlKnown
 import Verif.Model.Html
 import Verif.Spec.HtmlKnownDoc
+import Verif.Spec.HtmlRawText
 /-! driver handlers for property C03 (ops `model.*`, `spec.*`, `trig.*`) -/
 namespace Verif.Driver.C03
 open Verif Verif.Driver
@@ -47,6 +48,15 @@ def escape : Handler := fun args => do
 def trimWs : Handler := fun args => do
   let v ← argChars args 0
   .ok (charsToBytes (Model.HtmlAttr.trimWhitespace v))
+
+/-- `model.c03.rawok name b` → 1 when `rawTextEndsAtEnd name b`, else 0; for `style`/`iframe` followed by the
+    specification's verdict (`Spec.HtmlRawText.rawTextEnd` of `b</name>` is the length of `b`) -/
+def rawok : Handler := fun args => do
+  let name ← argChars args 0
+  let b ← argChars args 1
+  let m := Verif.Model.Html.rawTextEndsAtEnd name b
+  let sp := Spec.HtmlRawText.rawTextEnd name 0 (b ++ '<' :: '/' :: name ++ ['>']) == b.length
+  .ok (charsToBytes [if m then '1' else '0', if sp then '1' else '0'])
 
 /-- `spec.c03.decode attr raw` → UTF-8 rendering of the decoded units -/
 def decode : Handler := fun args => do
@@ -118,6 +128,11 @@ def stubSub (mime : List Char) (inline : Bool) (payload : List Char) : List Char
   let label := if stubLabels.any (fun l => l.toList == mime) then mime else ['?']
   '[' :: label ++ ['|', if inline then 'i' else '-', '|'] ++ payload ++ [']']
 
+/-- sub mode 2: a stub that also drops every backslash of the payload (`<\/script>` becomes `</script>`, `<!\--`
+    becomes `<!--`): its results regularly fail `rawTextEndsAtEnd` -/
+def stubSubDrop (mime : List Char) (inline : Bool) (payload : List Char) : List Char :=
+  stubSub mime inline (payload.filter (· != '\\'))
+
 /-- `model.c03.minify optsMask subMode ext tokens` -/
 def minifyOp : Handler := fun args => do
   let m ← argNat args 0
@@ -128,7 +143,7 @@ def minifyOp : Handler := fun args => do
     | [k, i, o] => .ok (bytesToChars k, bytesToChars i, bytesToChars o)
     | _ => .error "bad ext group")
   let toks ← toksG.mapM decodeTok
-  let sub : Verif.Model.Html.Sub := if subMode = 0 then none else some stubSub
+  let sub : Verif.Model.Html.Sub := if subMode = 0 then none else if subMode = 2 then some stubSubDrop else some stubSub
   match Verif.Model.Html.htmlMinify (optsOf m) ext sub toks with
   | .ok out => .ok (charsToBytes out)
   | .error e => .error e
@@ -147,6 +162,7 @@ def handlers : List (String × Handler) := [
   ("model.c03.replent", replent),
   ("model.c03.escape", escape),
   ("model.c03.trimws", trimWs),
+  ("model.c03.rawok", rawok),
   ("spec.c03.decode", decode),
   ("spec.c03.tokattr", tokattr)]
 
